@@ -233,8 +233,14 @@ func FrameCheck(root string, s *Step, r *StepResult) []*Violation {
 				if !iv.Dry && r.hasFired("WriteFile:short_write") {
 					inv = "C15/mid-write"
 				}
+				// the fault that did the damage: the in-place write failing midway, however
+				// the run got there (directly, or through a fallback after another fault)
+				fault := strings.Join(r.Obs.Fired, ",")
+				if inv == "C15/mid-write" {
+					fault = "WriteFile:short_write"
+				}
 				vs = append(vs, &Violation{Property: "C15", Invariant: inv,
-					Sig:     map[string]string{"run": kind, "change": d[:1], "status": r.Obs.Status, "fault": strings.Join(r.Obs.Fired, ",")},
+					Sig:     map[string]string{"run": kind, "change": d[:1], "status": r.Obs.Status, "fault": fault, "all_faults_fired": strings.Join(r.Obs.Fired, ",")},
 					Summary: fmt.Sprintf("%s (%s, flags %s) changed the output path: %s", kind, r.Obs.Status, iv.FlagSet(), d)})
 			}
 			continue
